@@ -49,6 +49,11 @@ struct St {
 pub struct Sched {
     m: Mutex<St>,
     cv: Condvar,
+    /// allocation-seam runs: per-thread allocation heartbeat, and whether the schedule was given
+    /// up because the released thread stood still (blocked on a lock a parked thread holds)
+    hb: Vec<std::sync::atomic::AtomicU64>,
+    alloc_mode: std::sync::atomic::AtomicBool,
+    abandoned: std::sync::atomic::AtomicBool,
 }
 
 impl St {
@@ -119,7 +124,20 @@ impl Sched {
                 diverged: false,
             }),
             cv: Condvar::new(),
+            hb: (0..n + 1).map(|_| std::sync::atomic::AtomicU64::new(0)).collect(),
+            alloc_mode: std::sync::atomic::AtomicBool::new(false),
+            abandoned: std::sync::atomic::AtomicBool::new(false),
         })
+    }
+
+    pub fn heartbeat(&self, tid: usize) -> &std::sync::atomic::AtomicU64 {
+        &self.hb[tid.min(self.hb.len() - 1)]
+    }
+    pub fn set_alloc_mode(&self) {
+        self.alloc_mode.store(true, std::sync::atomic::Ordering::Relaxed);
+    }
+    pub fn abandoned(&self) -> bool {
+        self.abandoned.load(std::sync::atomic::Ordering::Relaxed)
     }
 
     fn wait_turn<'a>(
@@ -127,6 +145,32 @@ impl Sched {
         mut g: std::sync::MutexGuard<'a, St>,
         me: usize,
     ) -> std::sync::MutexGuard<'a, St> {
+        use std::sync::atomic::Ordering::Relaxed;
+        if self.alloc_mode.load(Relaxed) {
+            // allocation-seam run: the released thread may need a lock that a parked thread holds.
+            // Its allocation heartbeat standing still for two windows = blocked: give the schedule up.
+            let mut last: Option<(usize, u64)> = None;
+            let mut still = 0;
+            while g.current != me && !self.abandoned.load(Relaxed) {
+                let (ng, to) = self.cv.wait_timeout(g, Duration::from_millis(150)).unwrap();
+                g = ng;
+                if to.timed_out() && g.current != me {
+                    let cur = g.current;
+                    let beat = self.hb[cur.min(self.hb.len() - 1)].load(Relaxed);
+                    if last == Some((cur, beat)) {
+                        still += 1;
+                    } else {
+                        still = 0;
+                    }
+                    last = Some((cur, beat));
+                    if still >= 2 {
+                        self.abandoned.store(true, Relaxed);
+                        self.cv.notify_all();
+                    }
+                }
+            }
+            return g;
+        }
         while g.current != me {
             let (ng, to) = self.cv.wait_timeout(g, Duration::from_secs(120)).unwrap();
             g = ng;
@@ -146,6 +190,9 @@ impl Sched {
         let me = SIM_TID.with(|t| t.get());
         if me == 0 {
             return;
+        }
+        if self.abandoned.load(std::sync::atomic::Ordering::Relaxed) {
+            return; // schedule given up: everybody runs free to the end
         }
         let mut g = self.m.lock().unwrap();
         if g.current != me {
